@@ -112,3 +112,48 @@ Example ex_subclasses :
    snd r = Raised eUserFail None /\ cs_canon (cget (fst r) 6) = [] /\ cs_names (cget (fst r) 6) = [] /\
    cs_id (cget (fst r) 6) = Some 2%Z /\ map o_live (heap (fst r)) = [false; true; true]).
 Proof. vm_compute. repeat split; reflexivity. Qed.
+
+(* ------------------------------------------------------------------ *)
+(* full statements that are not (yet) proved; the proved parts are named next to each *)
+
+(* C01 name_only for domains at the level of whole operations (proved parts: lookup_name_only for every class,
+   dom_request_result / invert_spec for requests with a length, nested_spec for the injected length) *)
+Definition name_only_domain_full : Prop :=
+  forall ct st dst c n st' id, Good ct st ->
+    step ct st (ODomain dst c (Some n) None None None) = (st', Created id) ->
+    starred n = true /\
+    exists p op l oo, live_obj (heap st) p op /\ o_cls op = c /\ o_name op = cname_of n /\ o_data op = DDom l /\
+                      hget (heap st') id = Some oo /\ o_data oo = DDom l.
+
+(* C01 (e): counters move only by successful automatic naming or by a user constructor failing after
+   super().__init__ (proved part: frame_step — counters of every other class are untouched;
+   step_raised_junk — registries untouched on every refusal) *)
+Definition counters_full : Prop :=
+  forall ct st o c, Inv ct st -> Collected st ->
+    cs_id (cget (fst (step ct st o)) c) = cs_id (cget st c) \/
+    (exists z, class_id ct st c = Some z /\ cs_id (cget (fst (step ct st o)) c) = Some (z + 1)%Z /\
+               ((exists id, snd (step ct st o) = Created id) \/ exists e, snd (step ct st o) = Raised eUserFail e)).
+
+(* C04: in a Good state ~d is never refused for a non-failing class (proved parts: invert_spec,
+   invert_involutive: whatever ~d and ~~d return is right) *)
+Definition invert_never_refused_full : Prop :=
+  forall ct st dst src i ob l ci, Good ct st -> consts_nonzero ct ->
+    get_root st src = Some i -> live_obj (heap st) i ob -> o_data ob = DDom l -> base_unstarred (o_name ob) ->
+    nth_error ct (o_cls ob) = Some ci -> c_fail ci = FNone ->
+    exists o, snd (step ct st (OComplement dst src)) = Returned o \/ snd (step ct st (OComplement dst src)) = Created o.
+
+(* the fuel of the DomainS recursion suffices for names with at most 5 trailing stars *)
+Definition no_fuel_exhaustion_full : Prop :=
+  forall ct c st name len prefix dtype k e,
+    (forall n, name = Some n -> length n <= 5 + length (cname_of (cname_of (cname_of (cname_of (cname_of n)))))) ->
+    snd (dom_call dom_fuel ct c st name len prefix dtype) = CErr k e -> k <> eFuel.
+
+(* C05: release followed by a redefinition with other parameters, as one statement about operations
+   (proved parts: release, redefine_after_release, ex_release) *)
+Definition release_redefine_full : Prop :=
+  forall ct st slot c ci n l l' i ob, Good ct st -> consts_nonzero ct ->
+    get_root st slot = Some i -> live_obj (heap st) i ob -> o_cls ob = c -> o_name ob = n -> o_data ob = DDom l ->
+    nth_error ct c = Some ci -> c_fail ci = FNone -> l' <> 0%Z ->
+    ~ Reach (heap st) (root_ids (roots (set_root st slot None))) i ->
+    (forall j oj, live_obj (heap st) j oj -> o_cls oj = c -> o_name oj <> cname_of n) ->
+    exists id, snd (step ct (fst (step ct st (ODrop slot))) (ODomain slot c (Some n) (Some l') None None)) = Created id.
